@@ -311,6 +311,13 @@ class C12(Check):
             ops.append((f"schemaless_writer#{i}", sl_write(datum)))
             ops.append((f"schemaless_reader#{i}", sl_read(datum)))
             ops.append((f"schemaless_reader+reader_schema#{i}", sl_read_rr(datum)))
+            for optname in ("return_record_name", "return_named_type"):
+                def sl_read_opt(schema, datum=datum, optname=optname):
+                    fo = io.BytesIO()
+                    fastavro.schemaless_writer(fo, schema, datum)
+                    fo.seek(0)
+                    return fastavro.schemaless_reader(fo, schema, **{optname: True})
+                ops.append((f"schemaless_reader({optname})#{i}", sl_read_opt))
             ops.append((f"validate#{i}", lambda schema, datum=datum: validate(datum, schema, raise_errors=False)))
         ops.append(("validate-bad", lambda schema: validate(case["bad"], schema, raise_errors=False)))
         ops.append(("validate-bad-raise", lambda schema: validate(case["bad"], schema)))
